@@ -5,6 +5,7 @@
 package main
 
 import (
+	_ "time/tzdata"
 	"encoding/binary"
 	"fmt"
 	"math/big"
@@ -72,7 +73,28 @@ func c15Era(sec *big.Int) string {
 
 func c15Time(v Val) (time.Time, int64, int64) {
 	sec, nsec := v.L[0].Int(), v.L[1].Int()
-	return time.Unix(sec, nsec), sec, nsec
+	// the same instant, presented in a location chosen from the value itself: a conversion depends on the
+	// instant only, never on the zone the caller's time.Time happens to carry (zones with daylight saving time
+	// have a repeated local hour once a year)
+	t := time.Unix(sec, nsec)
+	if z := c15Zones(); len(z) > 0 {
+		t = t.In(z[int(uint64(sec^nsec)%uint64(len(z)))])
+	}
+	return t, sec, nsec
+}
+
+var c15ZoneCache []*time.Location
+
+func c15Zones() []*time.Location {
+	if c15ZoneCache == nil {
+		c15ZoneCache = []*time.Location{time.UTC, time.FixedZone("plus", 5*3600+1800), time.FixedZone("minus", -11*3600)}
+		for _, n := range []string{"America/New_York", "Europe/Paris", "Australia/Lord_Howe"} {
+			if l, err := time.LoadLocation(n); err == nil {
+				c15ZoneCache = append(c15ZoneCache, l)
+			}
+		}
+	}
+	return c15ZoneCache
 }
 func c15TV(t time.Time) Val { return L(I(t.Unix()), I(int64(t.Nanosecond()))) }
 
@@ -662,6 +684,14 @@ func genC15(c *Ctx) {
 			for _, ns := range c15NsecCorpus {
 				timeCase(s+d, ns)
 			}
+		}
+	}
+	// instants inside the repeated local hour at the end of daylight saving time (New York 2021-11-07 and
+	// 1999-10-31, Paris 2021-10-31, Lord Howe 2022-04-03), with enough sub-second values to be presented in
+	// every zone of c15Zones()
+	for _, base := range []int64{1636263000, 1636266600, 1636268400, 941347800, 941351400, 1635638400, 1635642000, 1635645600, 1648911600, 1648913400} {
+		for k := int64(0); k < 24; k++ {
+			timeCase(base+k*97, k*100)
 		}
 	}
 	// random
